@@ -2,6 +2,7 @@ import GormModel.Drv.Util
 import GormModel.Model.Identity
 import GormModel.Model.JoinScan
 import GormModel.Model.PreloadBatch
+import GormModel.Model.BindLookup
 import GormModel.Gen.PreloadFacts
 open Lean
 namespace Gorm.Drv
@@ -135,6 +136,18 @@ def parseJCell (j : Json) : Option JCell := do
 
 def relPathStr (p : RelPath) : String := "__".intercalate (p.map String.ofList)
 
+/-- [[[bind…], db]…] -/
+def parseBFields (j : Json) : Option (List BField) := do
+  (← jArr? j).toList.mapM (fun f => do
+    let a ← jArr? f
+    let bind ← (← jArr? (arg a 0)).toList.mapM jStr?
+    let db ← jStr? (arg a 1)
+    some (⟨bind, db⟩ : BField))
+
+def bfieldJ : Option BField → Json
+  | some f => Json.str (".".intercalate f.bind)
+  | none => Json.null
+
 end HC11
 open HC11
 
@@ -217,6 +230,46 @@ def handleC11 (op : String) (args : Array Json) : Option Json := do
     let vs ← (← jArr? (arg args 5)).toList.mapM (fun t => do (← jArr? t).toList.mapM parseKeyVal)
     let s ← currentFindSites[k]?
     some (natListJ ((siteFetch s cl (chunks (n + 1) vs.length) (fun l => l.take (n + 1)) cs vs).map (·.id)))
+  | "bind.lookup" =>
+    -- ["bind.lookup", fields, [bindNames], name] -> bind path of the field schema.LookUpFieldByBindName answers | null
+    let fs ← parseBFields (arg args 1)
+    let bn ← (← jArr? (arg args 2)).toList.mapM jStr?
+    let name ← jStr? (arg args 3)
+    some (bfieldJ (lookUpFieldByBindName fs bn name))
+  | "bind.batch" =>
+    -- ["bind.batch", fields, [[[bindNames] | null, name]…]] -> one answer per query (null bindNames = LookUpField)
+    let fs ← parseBFields (arg args 1)
+    let qs ← jArr? (arg args 2)
+    let outs ← qs.toList.mapM (fun q => do
+      let a ← jArr? q
+      let name ← jStr? (arg a 1)
+      match arg a 0 with
+      | Json.null => some (bfieldJ (lookUpField fs name))
+      | b =>
+        let bn ← (← jArr? b).toList.mapM jStr?
+        some (bfieldJ (lookUpFieldByBindName fs bn name)))
+    some (Json.arr outs.toArray)
+  | "field.lookup" =>
+    -- ["field.lookup", fields, name] -> bind path of schema.LookUpField(name) | null
+    let fs ← parseBFields (arg args 1)
+    let name ← jStr? (arg args 2)
+    some (bfieldJ (lookUpField fs name))
+  | "guess.fk" =>
+    -- ["guess.fk", foreign fields, [relation bindNames], base, pk, snake, single] -> bind path of the guessed foreign key | null
+    let fs ← parseBFields (arg args 1)
+    let bn ← (← jArr? (arg args 2)).toList.mapM jStr?
+    let base ← jStr? (arg args 3)
+    let pk ← jStr? (arg args 4)
+    let snake ← jStr? (arg args 5)
+    let single ← jBool? (arg args 6)
+    some (bfieldJ (guessForeign fs bn (candidateNames base pk snake single)))
+  | "assoc.conds" =>
+    -- ["assoc.conds", embDepth, [conds], placeholders] -> {n: conditions reaching preload, ok: Find(dest, conds…) well-formed}
+    let d ← jNat? (arg args 1)
+    let cs ← (← jArr? (arg args 2)).toList.mapM jStr?
+    let k ← jNat? (arg args 3)
+    let r := assocCondsReaching d cs
+    some (Json.mkObj [("n", natJ r.length), ("ok", Json.bool (inlineWellFormed k r))])
   | "join.on" =>
     let refs ← (← jArr? (arg args 1)).toList.mapM parseJoinRef
     let qc ← jNat? (arg args 2)
